@@ -1,13 +1,351 @@
-//! C12 — (not built yet)
-#![allow(unused_imports, unused_variables, dead_code)]
+//! C12 — string decoding always yields valid UTF-8 equal to the reference mapping.
+//! ops: `w1252 <hex>` / `utf8 <hex>` -> `B:<hex>` (Cow::Borrowed) or `O:<hex>` (Cow::Owned),
+//!      hex = the UTF-8 bytes of the returned string;
+//!      `trim <hex>` -> hex (hook `trim_ascii_end`);
+//!      `czb <u64>` -> bool (hook `contains_zero_byte`); `rep <u8>` -> u64 (hook `repeat_byte`).
 use crate::common::*;
+use jomini::verif_hooks::{contains_zero_byte, repeat_byte, trim_ascii_end};
+use jomini::{Utf8Encoding, Windows1252Encoding};
+use std::borrow::Cow;
 
-pub fn gen(g: &mut Gen) {}
+/// Independent reference: the Windows-1252 code page (WHATWG index; the five unassigned
+/// bytes map to the C1 controls of the same number).
+const CP1252_HIGH: [u32; 32] = [
+    0x20AC, 0x0081, 0x201A, 0x0192, 0x201E, 0x2026, 0x2020, 0x2021, 0x02C6, 0x2030, 0x0160, 0x2039, 0x0152, 0x008D, 0x017D, 0x008F,
+    0x0090, 0x2018, 0x2019, 0x201C, 0x201D, 0x2022, 0x2013, 0x2014, 0x02DC, 0x2122, 0x0161, 0x203A, 0x0153, 0x009D, 0x017E, 0x0178,
+];
+
+fn ref_cp1252(b: u8) -> char {
+    if (0x80..0xA0).contains(&b) {
+        char::from_u32(CP1252_HIGH[(b - 0x80) as usize]).unwrap()
+    } else {
+        b as char
+    }
+}
+
+/// Rust's `u8::is_ascii_whitespace` written out: space, \t, \n, \x0C, \r (not \x0B).
+fn ref_ws(b: u8) -> bool {
+    matches!(b, 0x20 | 0x09 | 0x0A | 0x0C | 0x0D)
+}
+
+fn ref_trim(d: &[u8]) -> &[u8] {
+    match d.iter().rposition(|b| !ref_ws(*b)) {
+        Some(p) => &d[..=p],
+        None => &d[..0],
+    }
+}
+
+fn ref_unescape(d: &[u8]) -> Vec<u8> {
+    d.iter().copied().filter(|b| *b != b'\\').collect()
+}
+
+/// Independent lossy decoder (Unicode "maximal subpart" practice, Table 3-7 of the standard):
+/// a well-formed sequence is copied, otherwise the longest prefix of a well-formed sequence
+/// (at least one byte) becomes one U+FFFD.
+fn ref_lossy(d: &[u8]) -> String {
+    let mut out = String::new();
+    let mut i = 0;
+    while i < d.len() {
+        let b0 = d[i];
+        // (length, allowed range of the second byte)
+        let (n, lo, hi) = match b0 {
+            0x00..=0x7F => (1, 0, 0),
+            0xC2..=0xDF => (2, 0x80, 0xBF),
+            0xE0 => (3, 0xA0, 0xBF),
+            0xE1..=0xEC | 0xEE..=0xEF => (3, 0x80, 0xBF),
+            0xED => (3, 0x80, 0x9F),
+            0xF0 => (4, 0x90, 0xBF),
+            0xF1..=0xF3 => (4, 0x80, 0xBF),
+            0xF4 => (4, 0x80, 0x8F),
+            _ => (0, 0, 0),
+        };
+        if n == 0 {
+            out.push('\u{FFFD}');
+            i += 1;
+            continue;
+        }
+        let mut k = 1;
+        while k < n {
+            match d.get(i + k) {
+                Some(&c) if (k == 1 && lo <= c && c <= hi) || (k > 1 && (0x80..=0xBF).contains(&c)) => k += 1,
+                _ => break,
+            }
+        }
+        if k == n {
+            let mut cp: u32 = match n { 1 => b0 as u32, 2 => (b0 & 0x1F) as u32, 3 => (b0 & 0x0F) as u32, _ => (b0 & 0x07) as u32 };
+            for j in 1..n { cp = (cp << 6) | (d[i + j] & 0x3F) as u32; }
+            out.push(char::from_u32(cp).expect("reference produced a non-scalar"));
+        } else {
+            out.push('\u{FFFD}');
+        }
+        i += k;
+    }
+    out
+}
+
+fn show(c: &Cow<str>) -> String {
+    match c {
+        Cow::Borrowed(s) => format!("B:{}", hex(s.as_bytes())),
+        Cow::Owned(s) => format!("O:{}", hex(s.as_bytes())),
+    }
+}
+
+fn oracle(which: &str, d: &[u8], r: &Cow<str>, expect: &str, case: &str, obs: &mut Obs) {
+    // 1. the returned &str / String really is UTF-8 (it was built with from_utf8_unchecked)
+    if std::str::from_utf8(r.as_bytes()).is_err() {
+        obs.violation(&format!("{}-invalid-utf8", which), case, &hex(r.as_bytes()));
+        return;
+    }
+    // 2. equals the reference mapping
+    if r.as_ref() != expect {
+        obs.violation(&format!("{}-not-reference", which), case, &format!("impl {} reference {}", hex(r.as_bytes()), hex(expect.as_bytes())));
+    }
+    // 3. zero-copy: escape-free ASCII must come back borrowed, and a borrowed result must
+    //    point into the input (that is what lets &str fields borrow)
+    let t = ref_trim(d);
+    let plain = t.iter().all(|b| b.is_ascii() && *b != b'\\');
+    match r {
+        Cow::Borrowed(s) => {
+            if !(s.as_ptr() == d.as_ptr() && s.len() == t.len()) {
+                obs.violation(&format!("{}-borrowed-not-input-prefix", which), case, "");
+            }
+            obs.count(&format!("{}:borrowed", which));
+        }
+        Cow::Owned(_) => {
+            if plain {
+                obs.violation(&format!("{}-plain-ascii-not-borrowed", which), case, "");
+            }
+            obs.count(&format!("{}:owned", which));
+        }
+    }
+    if t.len() != d.len() { obs.count(&format!("{}:trimmed", which)); }
+    if t.contains(&b'\\') { obs.count(&format!("{}:escaped", which)); }
+    if !t.is_ascii() { obs.count(&format!("{}:non-ascii", which)); }
+}
 
 pub fn exec(w: &[&str], obs: &mut Obs) -> Option<String> {
-    None
+    let case = || w.join(" ");
+    match w {
+        ["w1252", h] => {
+            let d = unhex(h)?;
+            let r = Windows1252Encoding::decode(&d);
+            let expect: String = ref_unescape(ref_trim(&d)).iter().map(|b| ref_cp1252(*b)).collect();
+            oracle("w1252", &d, &r, &expect, &case(), obs);
+            Some(show(&r))
+        }
+        ["utf8", h] => {
+            let d = unhex(h)?;
+            let r = Utf8Encoding::decode(&d);
+            let un = ref_unescape(ref_trim(&d));
+            let expect = ref_lossy(&un);
+            // the hand-written reference itself is cross-checked against std
+            if expect != String::from_utf8_lossy(&un) {
+                obs.violation("utf8-reference-vs-std", &case(), &format!("reference {} std {}", hex(expect.as_bytes()), hex(String::from_utf8_lossy(&un).as_bytes())));
+            }
+            oracle("utf8", &d, &r, &expect, &case(), obs);
+            if std::str::from_utf8(&un).is_err() { obs.count("utf8:replaced"); }
+            Some(show(&r))
+        }
+        ["trim", h] => {
+            let d = unhex(h)?;
+            let r = trim_ascii_end(&d);
+            if r != ref_trim(&d) {
+                obs.violation("trim-not-reference", &case(), &hex(r));
+            }
+            Some(hex(r))
+        }
+        ["czb", x] => {
+            let x: u64 = x.parse().ok()?;
+            let r = contains_zero_byte(x);
+            if r != x.to_le_bytes().contains(&0) {
+                obs.violation("czb-not-reference", &case(), "");
+            }
+            Some(r.to_string())
+        }
+        ["rep", b] => {
+            let b: u8 = b.parse().ok()?;
+            let r = repeat_byte(b);
+            if r != u64::from_le_bytes([b; 8]) {
+                obs.violation("rep-not-reference", &case(), "");
+            }
+            Some(r.to_string())
+        }
+        _ => None,
+    }
+}
+
+/// bytes that select every branch of both decoders and of the UTF-8 validator
+const ALPHA: [u8; 40] = [
+    0x00, b'a', b'z', 0x7F, b' ', b'\t', b'\n', 0x0B, 0x0C, b'\r', b'\\', b'"', 0x5B, 0x5D, // ascii, whitespace, escape and its neighbours
+    0x80, 0x81, 0x8F, 0x90, 0x9F, 0xA0, 0xBF, // continuation bytes at the range edges (and cp1252 specials)
+    0xC0, 0xC1, 0xC2, 0xDF, // 2-byte leads (C0/C1 invalid)
+    0xE0, 0xE1, 0xEC, 0xED, 0xEE, 0xEF, // 3-byte leads
+    0xF0, 0xF1, 0xF3, 0xF4, 0xF5, 0xFF, // 4-byte leads and beyond
+    0xA7, 0xFE, 0x9D,
+];
+
+fn both(g: &mut Gen, d: &[u8]) {
+    let h = hex(d);
+    g.emit(format!("w1252 {}", h));
+    g.emit(format!("utf8 {}", h));
+}
+
+fn template(kind: usize, len: usize) -> Vec<u8> {
+    let pat: &[u8] = match kind {
+        0 => b"abcdefghijklmnopqrstuvwxyz0123456789ABCDEFGHIJ",
+        1 => b"J\xc3\xa5hk \xe2\x82\xac m\xf0\x9f\x98\x80 \\\"q\\\" \xc3\xa9\xed\x9f\xbf\xef\xbf\xbd x\xf4\x8f\xbf\xbf  \t",
+        2 => b"name \\\"x\\\" of the \xa7Y realm\xa7! \n\r\n",
+        _ => b"\xe0\xa0\x80\xe1\x80\x80\xec\xbf\xbf\xed\x80\x80\xee\x80\x80\xf0\x90\x80\x80\xf1\x80\x80\x80\xf3\xbf\xbf\xbf\xf4\x80\x80\x80\xc2\x80\xdf\xbfab",
+    };
+    pat.iter().copied().cycle().take(len).collect()
+}
+
+pub fn gen(g: &mut Gen) {
+    // hooks: trim / contains_zero_byte / repeat_byte
+    for b in 0..=255u8 { g.emit(format!("rep {}", b)); }
+    for i in 0..2000 {
+        let mut x = g.rng.next();
+        // plant zero bytes / bytes around 0x00, 0x01, 0x80 at random positions
+        for _ in 0..g.rng.below(4) {
+            let p = g.rng.below(8) * 8;
+            let v = *g.rng.pick(&[0u64, 1, 0x80, 0x7F, 0xFF, 0x81]);
+            x = (x & !(0xFFu64 << p)) | (v << p);
+        }
+        if i < 9 { x = if i == 8 { u64::MAX } else { !(0xFFu64 << (i * 8)) }; }
+        g.emit(format!("czb {}", x));
+    }
+    g.count("hooks");
+    // 1. every string of length <= 2 over all 256 bytes
+    both(g, &[]);
+    for a in 0..=255u8 {
+        both(g, &[a]);
+        g.emit(format!("trim {}", hex(&[a])));
+        for b in 0..=255u8 {
+            both(g, &[a, b]);
+        }
+    }
+    g.count("exhaustive-len<=2");
+    // 2. every string of length 3 over the significant alphabet
+    for &a in &ALPHA { for &b in &ALPHA { for &c in &ALPHA {
+        both(g, &[a, b, c]);
+        g.emit(format!("trim {}", hex(&[a, b, c])));
+    } } }
+    g.count("exhaustive-len3-alpha40");
+    // 3. every single-byte perturbation at every offset of templates of length 0..40
+    //    (lengths cross the 8-byte chunk boundaries of decode_utf8 five times)
+    let kinds = g.budget(2, 4);
+    for kind in 0..kinds {
+        for len in 0..=40usize {
+            let t = template(kind, len);
+            both(g, &t);
+            for off in 0..len {
+                // quick: all 256 values for the plain template, the significant alphabet otherwise
+                let full = g.thorough || kind == 0;
+                let mut one = |g: &mut Gen, v: u8| {
+                    let mut m = t.clone();
+                    m[off] = v;
+                    // alternate the decoder, both for the bytes that matter most
+                    if v == b'\\' || v >= 0x80 || ref_ws(v) { both(g, &m); }
+                    else if (off + v as usize) % 2 == 0 { g.emit(format!("w1252 {}", hex(&m))); }
+                    else { g.emit(format!("utf8 {}", hex(&m))); }
+                };
+                if full { for v in 0..=255u8 { one(g, v); } } else { for &v in &ALPHA { one(g, v); } }
+            }
+        }
+    }
+    g.count("perturbations");
+    // 4. valid / invalid UTF-8 sequences: every lead with boundary continuations, truncated,
+    //    embedded at every alignment of the 8-byte chunk loop, with and without an escape
+    let conts: [u8; 8] = [0x7F, 0x80, 0x8F, 0x90, 0x9F, 0xA0, 0xBF, 0xC0];
+    let mut seqs: Vec<Vec<u8>> = vec![];
+    for lead in 0xC0..=0xFFu8 {
+        seqs.push(vec![lead]);
+        for &c1 in &conts {
+            seqs.push(vec![lead, c1]);
+            for &c2 in &[0x7Fu8, 0x80, 0xBF, 0xC0] {
+                seqs.push(vec![lead, c1, c2]);
+                if lead >= 0xF0 {
+                    for &c3 in &[0x7Fu8, 0x80, 0xBF, 0xC0] { seqs.push(vec![lead, c1, c2, c3]); }
+                }
+            }
+        }
+    }
+    let step = g.budget(7, 1);
+    for (n, s) in seqs.iter().enumerate() {
+        g.emit(format!("utf8 {}", hex(s)));
+        if n % step != 0 { continue; }
+        let pad = n % 9; // alignment inside / across chunks
+        let mut d: Vec<u8> = template(0, pad);
+        d.extend_from_slice(s);
+        d.extend_from_slice(b"xy");
+        both(g, &d);
+        let mut e = d.clone();
+        e.insert(g.rng.below(d.len() + 1), b'\\');
+        both(g, &e);
+        d.push(b' ');
+        both(g, &d);
+    }
+    g.count("utf8-sequences");
+    // 5. random strings: bytes drawn from the alphabet / all bytes / valid scalars, any length
+    let n = g.budget(20_000, 600_000);
+    for _ in 0..n {
+        let len = g.rng.size(48);
+        let mode = g.rng.below(4);
+        let mut d: Vec<u8> = vec![];
+        while d.len() < len {
+            match mode {
+                0 => d.push(*g.rng.pick(&ALPHA)),
+                1 => d.push(g.rng.below(256) as u8),
+                2 => d.push(b' ' + g.rng.below(95) as u8),
+                _ => {
+                    // a random scalar value, encoded; sometimes damaged
+                    let cp = match g.rng.below(4) { 0 => g.rng.below(0x80), 1 => g.rng.below(0x800), 2 => g.rng.below(0x10000), _ => g.rng.below(0x110000) } as u32;
+                    if let Some(c) = char::from_u32(cp) {
+                        let mut buf = [0u8; 4];
+                        let s = c.encode_utf8(&mut buf).as_bytes().to_vec();
+                        let cut = if g.rng.chance(1, 8) { g.rng.below(s.len()) + 1 } else { s.len() };
+                        d.extend_from_slice(&s[..cut]);
+                    }
+                }
+            }
+        }
+        if g.rng.chance(1, 3) { let p = g.rng.below(d.len() + 1); d.insert(p, b'\\'); }
+        if g.rng.chance(1, 3) { for _ in 0..g.rng.below(4) { d.push(*g.rng.pick(b" \t\n\r\x0c\x0b")); } }
+        both(g, &d);
+        if g.rng.chance(1, 8) { g.emit(format!("trim {}", hex(&d))); }
+    }
+    g.count("random");
 }
 
 pub fn tables() -> String {
-    String::new()
+    // the Windows-1252 table as the public decoder sees it: code point of the single char
+    // that `decode(&[b])` yields.  Three bytes cannot be probed alone (whitespace is trimmed,
+    // the backslash is dropped), they are probed behind a non-space / in front of one.
+    let mut vals: Vec<u64> = Vec::with_capacity(256);
+    for b in 0..=255u8 {
+        let probe = [0xFF, b, 0xFF];
+        let s = Windows1252Encoding::decode(&probe);
+        let cs: Vec<char> = s.chars().collect();
+        let v = if b == b'\\' {
+            // dropped by the decoder: the table entry is not observable; WINDOWS_1252[0x5c] is never read
+            assert_eq!(cs.len(), 2);
+            0x5c
+        } else {
+            assert_eq!(cs.len(), 3, "byte {:#x}", b);
+            assert_eq!(cs[0], '\u{ff}');
+            cs[1] as u64
+        };
+        // cross-check with the plain one-byte probe where it is observable
+        let single = [b];
+        let one = Windows1252Encoding::decode(&single);
+        if !ref_ws(b) && b != b'\\' {
+            assert_eq!(one.chars().next().map(|c| c as u64), Some(v));
+        }
+        vals.push(v);
+    }
+    crate::tables::emit_nat_table(
+        "win1252",
+        "code point of the char `Windows1252Encoding::decode` yields for each byte (measured; entry 0x5c is never read by the decoder)",
+        &vals,
+    ) + "\n"
 }
